@@ -409,6 +409,10 @@ impl Connack {
             return Err(MqttError::MalformedPacket);
         }
         let flags = data[cursor];
+        if (flags & 0xFE) != 0 {
+            // Bits 7-1 of the Connect Acknowledge Flags are reserved and MUST be 0
+            return Err(MqttError::MalformedPacket);
+        }
         cursor += 1;
         let _session = (flags & 0x01) != 0;
         let code = data[cursor];
